@@ -3,13 +3,14 @@ package props
 import (
 	"encoding/json"
 	"fmt"
+	"strings"
 	"testing"
 	"time"
 
 	"pgregory.net/rapid"
 )
 
-const c10Budget = 5_000_000
+const c10Budget = 300_000
 const c10EnumBudget = 1_000_000
 
 // checkTerminates runs src on text with the step budget; exceeding it is the
@@ -23,6 +24,9 @@ func checkTerminates(c RunCase) (sig, what string, steps int64) {
 		return "compile-error", firstLine(err.Error()), 0
 	}
 	res := RunSafe(v, c.Text, c10Budget)
+	if spin := spinning(res, c.Text); spin != "" {
+		return "spin", spin, res.Steps
+	}
 	if res.OverBudget {
 		return "step-budget-exceeded", fmt.Sprintf("Run executed more than %d VM instructions on a %d-byte text", c10Budget, len(c.Text)), res.Steps
 	}
@@ -30,6 +34,25 @@ func checkTerminates(c RunCase) (sig, what string, steps int64) {
 		return res.Panic.Sig(), "Run panicked: " + res.Panic.Sig(), res.Steps
 	}
 	return "", "", res.Steps
+}
+
+// spinning tells a spin from a long search by the progress measures of the verif
+// hook: one activation of a loop cannot run more iterations than there are bytes
+// left to consume plus the one empty iteration the zero-width guard allows (plus
+// its minimum), and calls cannot nest deeper than the bytes consumed before each
+// recursion plus the number of subroutines. The programs of this property have
+// minima <= 1 and at most 2 subroutines; the slack of 8 is far above both. A search
+// that is merely long (nested unbounded loops are exponential in the text length)
+// stays within the measures however many instructions it takes.
+func spinning(res RunResult, text string) string {
+	bound := int64(len(text)) + 8
+	if res.MaxIter > bound {
+		return fmt.Sprintf("a loop ran %d iterations in one activation on a %d-byte text (every iteration but one must consume a byte)", res.MaxIter, len(text))
+	}
+	if res.MaxDepth > bound {
+		return fmt.Sprintf("calls nested %d deep on a %d-byte text (a subroutine consumes a byte before it recurses)", res.MaxDepth, len(text))
+	}
+	return ""
 }
 
 func init() {
@@ -74,6 +97,9 @@ func c10Heads() []loopHead {
 	hs[4] = loopHead{1, 2, false, false}
 	hs[9] = loopHead{1, 2, true, false}
 	hs = append(hs, loopHead{0, -1, false, true})
+	// bounds nobody can count up to: only the zero-width guard ends such a loop over
+	// a nullable body (the maximum is a counter, not unrolled code)
+	hs = append(hs, loopHead{0, 2000000000, false, false}, loopHead{1, 1<<63 - 1, true, false})
 	return hs
 }
 
@@ -170,7 +196,7 @@ func c10Enumerate(t *testing.T, part string, depth int, stride int) {
 	if stride > 1 {
 		kind = fmt.Sprintf("every %dth program of the enumeration of all programs", stride)
 	}
-	st := NewStats("C10", part, fmt.Sprintf(kind+" `find all P` (and, up to depth 2, `P 'b'` three subroutine-in-loop forms, and 396 guarded-recursion programs: 22 consuming first instructions incl. every class and its negation and whole line / word / file x 6 continuations x 3 contexts) with P from the nullable-material grammar (18 atoms incl. all anchors and their negations and a `not in` with a multi-byte item, 11 loop heads greedy/fewest/named, or-pairs) to nesting depth %d x all %d texts of length 1..3 over {a,b,\\n}; oracle: VM instructions per Run <= %d (largest observed count reported); non-trivial = program contains a loop whose body is nullable; programs are distinct by construction", depth, len(c10Texts()), c10EnumBudget))
+	st := NewStats("C10", part, fmt.Sprintf(kind+" `find all P` (and, up to depth 2, `P 'b'` three subroutine-in-loop forms, and 396 guarded-recursion programs: 22 consuming first instructions incl. every class and its negation and whole line / word / file x 6 continuations x 3 contexts) with P from the nullable-material grammar (18 atoms incl. all anchors and their negations and a `not in` with a multi-byte item, 13 loop heads greedy/fewest/named incl. two with bounds of 2e9 and 2^63-1, or-pairs) to nesting depth %d x all %d texts of length 1..3 over {a,b,\\n}; oracle: VM instructions per Run <= %d (largest observed count reported); non-trivial = program contains a loop whose body is nullable; programs are distinct by construction", depth, len(c10Texts()), c10EnumBudget))
 	st.Exhaustive = stride == 1
 	defer st.Write()
 	texts := c10Texts()
@@ -201,6 +227,11 @@ func c10Enumerate(t *testing.T, part string, depth int, stride int) {
 			ClearInflight()
 			st.Eval()
 			st.Max("max_vm_steps", res.Steps)
+			st.Max("max_loop_iterations", res.MaxIter)
+			st.Max("max_call_depth", res.MaxDepth)
+			if spin := spinning(res, text); spin != "" {
+				Fail(t, Failure{Property: "C10", Kind: "terminates", What: fmt.Sprintf("%s on %q: %s", src, text, spin), Case: c, Sig: "spin"})
+			}
 			if res.OverBudget {
 				Fail(t, Failure{Property: "C10", Kind: "terminates", What: fmt.Sprintf("%s on %q: Run executed more than %d VM instructions", src, text, c10EnumBudget), Case: c, Sig: "step-budget-exceeded"})
 			}
@@ -357,7 +388,11 @@ func TestC10Random(t *testing.T) {
 			t.Fatalf("HARNESS: %s: %s", src, what)
 		}
 		if sig == "step-budget-exceeded" {
-			Fail(t, Failure{Property: "C10", Kind: "terminates", What: fmt.Sprintf("%s on %q: %s although the reference matcher needs only %d steps", src, text, what, mr.Steps), Case: c, Sig: sig})
+			// more than c10Budget instructions with bounded progress measures: nested unbounded
+			// loops are legitimately exponential (found: 5.2e6 instructions on 6 bytes, a
+			// VIOLATION line on the unchanged tree, harness error 17). Not a verdict.
+			st.Count("discarded_long_search_with_bounded_progress")
+			return
 		}
 		if sig != "" {
 			Fail(t, Failure{Property: "C10", Kind: "terminates", What: fmt.Sprintf("%s on %q: %s", src, text, what), Case: c, Sig: sig})
@@ -391,4 +426,61 @@ func stripNames(body []*Node) []*Node {
 		out = append(out, cp(n))
 	}
 	return out
+}
+
+// TestC10Process: "whose process code has no unbounded loop": predicates and
+// transforms with bounded counter loops (several rounds, `continue` after the
+// increment, `break`) - Run must return. Process statements are not VM
+// instructions, so a spin there is seen by the watchdog (15 s; cases take
+// milliseconds), replayed in isolation by the driver, and reported as the
+// violation it is for this property.
+func TestC10Process(t *testing.T) {
+	seedNote(t)
+	StartWatchdog("C10", 15*time.Second)
+	st := NewStats("C10", "process", "generated predicates and transforms whose statement lists contain a bounded counter loop (1..5 rounds, optional `continue` after the increment under a counter or generated condition, optional `break`, work after the continue) x 3 texts; oracle: Run returns (no step or time budget is spent by correct code: process statements are bounded by construction) and does not panic; non-trivial = the loop has a `continue`; distinct by source")
+	defer st.Write()
+	rapid.Check(t, func(t *rapid.T) {
+		ctx := CtxTransform
+		if rapid.Bool().Draw(t, "predicate") {
+			ctx = CtxPredicate
+		}
+		eg := &exprGen{t: t, vars: map[PType][]string{TString: {"match"}, TNumber: {"matchLength"}}}
+		stmts := declareVars(eg)
+		sg := &stmtGen{eg: eg, t: t, ctx: ctx, loopFuel: 1}
+		stmts = append(stmts, sg.WellTyped(rapid.IntRange(0, 1).Draw(t, "pre"), 1, false)...)
+		stmts = append(stmts, sg.counterLoop(2)...)
+		stmts = append(stmts, returnFor(eg, ctx, 1))
+		body := strings.Join(StmtsTokens(stmts, true), " ")
+		var src string
+		if ctx == CtxPredicate {
+			src = "set p to pattern at least 1 letter begin " + body + " end find all p"
+		} else {
+			src = "set f to transform " + body + " end replace all at least 1 letter with f"
+		}
+		hasContinue := strings.Contains(body, " continue ")
+		v, err, p := CompileSafe(src)
+		if p != nil {
+			c := RunCase{Src: src, Text: "a"}
+			Fail(t, Failure{Property: "C10", Kind: "terminates", What: src + ": Compile panicked: " + p.Sig(), Case: c, Sig: p.Sig()})
+		}
+		if err != nil {
+			t.Fatalf("HARNESS: %s: %s", src, firstLine(err.Error()))
+		}
+		for _, text := range []string{"ab c", "abc 12 de", "x"} {
+			c := RunCase{Src: src, Text: text}
+			st.Eval()
+			SetInflight(func() string { return jsonStr(Failure{Property: "C10", Kind: "terminates", Case: c}) })
+			res := RunSafe(v, text, c10Budget)
+			ClearInflight()
+			if res.OverBudget {
+				Fail(t, Failure{Property: "C10", Kind: "terminates", What: fmt.Sprintf("%s on %q: Run executed more than %d VM instructions", src, text, c10Budget), Case: c, Sig: "step-budget-exceeded"})
+			}
+			if res.Panic != nil && !strings.Contains(res.Panic.Sig(), "divide by zero") {
+				Fail(t, Failure{Property: "C10", Kind: "terminates", What: fmt.Sprintf("%s on %q: Run panicked: %s", src, text, res.Panic.Sig()), Case: c, Sig: res.Panic.Sig()})
+			}
+		}
+		if hasContinue {
+			st.NonTrivial(src, func() any { return map[string]any{"src": src} })
+		}
+	})
 }
